@@ -69,4 +69,21 @@ def runTxs : (h : List Tx) → (m : Mbox) → Mbox × List Nat
 /-- representation invariant: no row above `seq` -/
 def WF (m : Mbox) : Prop := ∀ u ∈ m.rows, u ≤ m.seq
 
+/-- **Table rebuild by copy** — the idiom a schema migration uses to change a column of an existing
+    table (SQLite cannot alter a column): `CREATE TABLE t_tmp (…)`, `INSERT INTO t_tmp (uid, …)
+    SELECT uid, … FROM t`, `DROP TABLE t`, `ALTER TABLE t_tmp RENAME TO t`
+    (internal/db_impl/sqlite3/v3/migration.go does this to the flag tables).  `DROP TABLE` deletes
+    the table's `sqlite_sequence` row; an INSERT *with* explicit rowids into an AUTOINCREMENT table
+    sets its `seq` to the largest rowid inserted; the rename carries that row over.  So the
+    rebuilt table remembers the largest UID *copied*, not the largest UID ever assigned.
+
+    Not an `Op`: no code of the current tree does this to a per-mailbox message table — the only
+    migration that touches them (v1) issues new UIDVALIDITY values (facts `Facts.migrationList`,
+    obligations `C04.migrations_reviewed`, `C04.migrations_keep_uid_tables`; on the real code: the
+    upgrade fixtures of oracle `c04uids`). -/
+def rebuildCopy (m : Mbox) : Mbox := { rows := m.rows, seq := maxRow m.rows }
+
+/-- the same idiom followed by the repair `UPDATE sqlite_sequence SET seq = <old seq>` -/
+def rebuildKeepSeq (m : Mbox) : Mbox := { rows := m.rows, seq := max m.seq (maxRow m.rows) }
+
 end Gluon.UidSeq
